@@ -39,7 +39,17 @@ def snap(cfg, serials=None, defined=True, depth=0):
     if depth > 10:
         return ("deep",)
     rows = []
-    for key, value in cfg:
+    it = iter(cfg)
+    while True:
+        try:
+            key, value = next(it)
+        except StopIteration:
+            break
+        except Exception as exc:  # noqa: BLE001 - a configuration that cannot even be enumerated: part of what is observed
+            if type(exc).__name__ == "SeamGap":
+                raise
+            rows.append(("<enumeration fails>", "err:" + type(exc).__name__, None))
+            break
         flag = None
         if defined:
             try:
